@@ -783,7 +783,7 @@ pub struct AEADCipherCodec<const N: usize> {
     decoder: Option<ChunkDecoder>,
 }
 
-//@@ octo-squirrel/src/codec/shadowsocks/tcp.rs:67-241  impl AEADCipherCodec  sha=432cf84be9ebf5a3
+//@@ octo-squirrel/src/codec/shadowsocks/tcp.rs:67-246  impl AEADCipherCodec  sha=6f58a201081879b2
 impl<const N: usize> AEADCipherCodec<N> {
     fn encode(&mut self, context: &Context<N>, session: &Session<N>, mut item: BytesMut, dst: &mut BytesMut) -> anyhow::Result<()> {
         match self.encoder {
@@ -923,8 +923,13 @@ impl<const N: usize> AEADCipherCodec<N> {
         }
         a22__validate_timestamp(header.get_u64()).map_err(verif_err_from)?;
         if matches!(session.mode, Mode::Client) {
-            header.copy_to_slice(session.identity.request_salt.as_mut().unwrap());
+            let mut request_salt = [0; N];
+            header.copy_to_slice(&mut request_salt);
             /*R2*/
+            if request_salt != session.identity.salt {
+                return Err(verif_err())
+            }
+            session.identity.request_salt = Some(request_salt);
         };
         let length = header.get_u16() as usize;
         if _src.remaining() >= length + tag_size {
@@ -960,21 +965,21 @@ impl<const N: usize> AEADCipherCodec<N> {
     }
 }
 
-//@@ octo-squirrel/src/codec/shadowsocks/tcp.rs:243-250  struct Session  sha=1392850d69a201bf
+//@@ octo-squirrel/src/codec/shadowsocks/tcp.rs:248-255  struct Session  sha=1392850d69a201bf
 pub struct Session<const N: usize> {
     mode: Mode,
     identity: Identity<N>,
     pub address: Option<Address>,
     }
 
-//@@ octo-squirrel/src/codec/shadowsocks/tcp.rs:252-256  impl Session  sha=21df35fa41e24243
+//@@ octo-squirrel/src/codec/shadowsocks/tcp.rs:257-261  impl Session  sha=21df35fa41e24243
 impl<const N: usize> Session<N> {
     fn new(mode: Mode, identity: Identity<N>, address: Option<Address>) -> Self {
         Self { mode, identity, address }
     }
 }
 
-//@@ octo-squirrel/src/codec/shadowsocks/tcp.rs:258-262  struct Identity  sha=1d0a7a0e004ea6f4
+//@@ octo-squirrel/src/codec/shadowsocks/tcp.rs:263-267  struct Identity  sha=1d0a7a0e004ea6f4
 pub struct Identity<const N: usize> {
     pub salt: [u8; N],
     pub request_salt: Option<[u8; N]>,
